@@ -84,6 +84,55 @@ fn tinylfu_clone_is_identical_then_independent() {
 }
 
 
+// The batch entry points are folds of the single-step ones, whose contracts unit V-TLFU proves (Verus cannot take the
+// `iter().for_each(|k| self.increment..)` closure).  Relational contract: the same accesses recorded in one batch and
+// one by one from the same arbitrary state give the same estimator state -- in particular the window reset happens at
+// the same point inside the batch.  Added after the independently seeded change C11-5 (one late reset per batch) was missed.
+#[kani::proof]
+#[kani::unwind(10)]
+fn tinylfu_batch_is_fold_of_single() {
+    let samples: usize = kani::any();
+    let w: usize = kani::any();
+    kani::assume(samples >= 1 && samples <= 3 && w < samples);
+    let mut t: TinyLFU<u8, ByteKeyHasher> = TinyLFU::verif_small(kani::any(), 1, kani::any(), kani::any(), 1, samples, w, ByteKeyHasher);
+    let mut c = t.clone();
+    let hs: [u64; 3] = kani::any();
+    let l: usize = kani::any();
+    kani::assume(l <= 3);
+    kani::cover!(l == 3 && w + 3 > samples, "batch crosses the sample-window boundary");
+    kani::cover!(l == 3 && samples == 1, "batch spans several windows");
+    kani::cover!(l == 0, "empty batch");
+    t.increment_hashed_keys(&hs[..l]);
+    let mut i = 0;
+    while i < 3 {
+        if i < l {
+            c.increment_hashed_key(hs[i]);
+        }
+        i += 1;
+    }
+    ck!(t.verif_abs() == c.verif_abs(), "[C11.batch] increment_hashed_keys records its accesses exactly as the same calls of increment_hashed_key, one by one (resets included)");
+    core::mem::forget(t);
+    core::mem::forget(c);
+}
+
+#[kani::proof]
+#[kani::unwind(10)]
+fn tinylfu_key_batch_is_fold_of_single() {
+    let samples: usize = kani::any();
+    let w: usize = kani::any();
+    kani::assume(samples >= 1 && samples <= 2 && w < samples);
+    let mut t: TinyLFU<u8, ByteKeyHasher> = TinyLFU::verif_small(kani::any(), 1, kani::any(), kani::any(), 1, samples, w, ByteKeyHasher);
+    let mut c = t.clone();
+    let (a, b): (u8, u8) = kani::any();
+    kani::cover!(w + 2 > samples, "key batch crosses the sample-window boundary");
+    t.increment_keys(&[&a, &b]);
+    c.increment(&a);
+    c.increment(&b);
+    ck!(t.verif_abs() == c.verif_abs(), "[C11.batch] increment_keys records its accesses exactly as the same calls of increment, one by one (resets included)");
+    core::mem::forget(t);
+    core::mem::forget(c);
+}
+
 /// Contract assumed for the natural logarithm (CBMC's own model of `log` is nondeterministic):
 /// for 0 < x < 1 the result is negative, not NaN, and not below ln(smallest positive f64) = -744.44...
 fn stub_ln(x: f64) -> f64 {
